@@ -130,7 +130,8 @@ func (m *Model) PullPositions(ctx context.Context, ops ...resource.ReadOption) <
 			seenAll = true
 			if !readRequest.UpdatesOnly {
 				positions := &traits.OpenClosePositions{}
-				responseFilter.Filter(positions)
+				positions.Preset, _ = m.presetForValue(positions.States) // as GetPositions reports it
+				positions = responseFilter.FilterClone(positions).(*traits.OpenClosePositions)
 				last = positions
 				select {
 				case <-ctx.Done():
